@@ -61,6 +61,7 @@ GRAMMAR = {
     'AggLet': (2, 2), 'GetField': (1, 1), 'MakeArray': (1, None), 'ToStream': (1, 1), 'ToArray': (0, 1),
     'StreamMap': (1, 2), 'StreamFilter': (1, 2), 'StreamFold': (2, 3), 'ArrayLen': (0, 1), 'ArrayRef': (1, 2),
     'AggFilter': (1, 2), 'StreamAgg': (1, 2), 'StreamAggScan': (1, 2), 'Cast': (1, 1),
+    'AggGroupBy': (1, 2), 'AggExplode': (2, 2), 'AggArrayPerElement': (4, 2), 'Apply': None,
     # special: Let (eval|agg|scan name)+ value+ body ; MakeStruct (name ir)* ; ApplyAggOp op (init*) (seq*)
     'Let': None, 'MakeStruct': None, 'ApplyAggOp': None, 'ApplyScanOp': None,
 }
@@ -121,6 +122,8 @@ class Evaluator:
             if list(a[1]) != list(b[1]):
                 raise IRTextError('ill-typed If on structs')
             return ('t', {k: Evaluator.ite(c, a[1][k], b[1][k]) for k in a[1]})
+        if ka == 'd':
+            return ('d', [(z3.And(c, g), k_, v) for g, k_, v in a[1]] + [(z3.And(z3.Not(c), g), k_, v) for g, k_, v in b[1]])
         # arrays: concatenate guarded views (order within each side is kept; the sides are exclusive)
         return ('a', [(z3.And(c, g), v) for g, v in a[1]] + [(z3.And(z3.Not(c), g), v) for g, v in b[1]])
 
@@ -152,6 +155,16 @@ class Evaluator:
             if env is None or n not in env:
                 raise ScopeError(n)
             return env[n]
+        if k == 'Apply':
+            # (Apply errorID name (typeArgs) returnType args...): only the integer conversions are modelled
+            if len(a) != 5 or a[1] not in ('toInt64', 'toInt32') or a[2] != []:
+                raise IRTextError(f'Apply {a[1] if len(a) > 1 else "?"} is not modelled')
+            v = E(a[4])
+            w = {'Int32': 32, 'Int64': 64}.get(a[3])
+            if v[0] != 'i' or w != {'toInt32': 32, 'toInt64': 64}[a[1]]:
+                raise IRTextError('ill-typed integer conversion')
+            sz = v[1].size()
+            return ('i', v[1] if sz == w else (z3.SignExt(w - sz, v[1]) if w > sz else z3.Extract(w - 1, 0, v[1])))
         if k == 'Cast':
             v = E(a[1])
             w = {'Int32': 32, 'Int64': 64}.get(a[0])
@@ -278,8 +291,13 @@ class Evaluator:
             rows = agg if k == 'ApplyAggOp' else scan
             if rows is None:
                 raise ScopeError(f'<{k} outside an aggregation/scan context>')
+            if a[0] == 'Count' and not a[1] and not a[2]:
+                tot = z3.BitVecVal(0, 64)
+                for gd, _ in rows:
+                    tot = tot + z3.If(gd, z3.BitVecVal(1, 64), z3.BitVecVal(0, 64))
+                return ('i', tot)
             if a[0] != 'Sum' or a[1] or len(a[2]) != 1:
-                raise IRTextError(f'{k}: only Sum () (x) is modelled')
+                raise IRTextError(f'{k}: only Sum () (x) and Count () () are modelled')
             tot = None
             for gd, renv in rows:
                 v = self.ev(a[2][0], renv, None, None, _and(live, gd))
@@ -291,6 +309,55 @@ class Evaluator:
                 # no candidate rows (first element of a scan): still evaluate the argument once for scoping/sort
                 tot = z3.BitVecVal(0, 64)
             return ('i', tot)
+        if k == 'AggGroupBy':
+            # (AggGroupBy isScan key agg): key per row in the agg/scan scope; value = agg over the rows of that key
+            is_scan = _bool_lit(a[0])
+            rows = scan if is_scan else agg
+            if rows is None:
+                raise ScopeError('<AggGroupBy outside an aggregation/scan context>')
+            keys = [self.ev(a[1], renv, None, None, _and(live, gd)) for gd, renv in rows]
+            if any(kv[0] not in ('i', 'b') for kv in keys):
+                raise IRTextError('AggGroupBy: only int / bool keys are modelled')
+            entries = []
+            for i, (gd, _) in enumerate(rows):
+                grp = [(z3.And(gj, keys[j][1] == keys[i][1]), rj) for j, (gj, rj) in enumerate(rows)]
+                val = self.ev(a[2], env, agg if is_scan else grp, grp if is_scan else scan, _and(live, gd))
+                entries.append((gd, keys[i], val))
+            if not rows:
+                self.ev(a[2], env, agg if is_scan else [], [] if is_scan else scan, False)   # scoping only
+            return ('d', entries)
+        if k == 'AggExplode':
+            # (AggExplode name isScan stream aggBody): one row per element, `name` bound in the agg/scan scope
+            name, is_scan = unescape_id(a[0]), _bool_lit(a[1])
+            rows = scan if is_scan else agg
+            if rows is None:
+                raise ScopeError('<AggExplode outside an aggregation/scan context>')
+            new = []
+            for gd, renv in rows:
+                arr = self._arr(self.ev(a[2], renv, None, None, _and(live, gd)))
+                for ge, ve in arr[1]:
+                    new.append((z3.And(gd, ge), _bind(renv, name, ve)))
+            return self.ev(a[3], env, agg if is_scan else new, new if is_scan else scan, live)
+        if k == 'AggArrayPerElement':
+            # (AggArrayPerElement elt idx isScan hasKnownLength array aggBody): arrays of one static length only
+            elt, idx, is_scan = unescape_id(a[0]), unescape_id(a[1]), _bool_lit(a[2])
+            if _bool_lit(a[3]):
+                raise IRTextError('AggArrayPerElement with known length is not modelled')
+            rows = scan if is_scan else agg
+            if rows is None:
+                raise ScopeError('<AggArrayPerElement outside an aggregation/scan context>')
+            arrs = [self._arr(self.ev(a[4], renv, None, None, _and(live, gd)))[1] for gd, renv in rows]
+            if any(len(x) != len(arrs[0]) or any(not z3.is_true(z3.simplify(g_)) for g_, _ in x) for x in arrs):
+                raise IRTextError('AggArrayPerElement: only arrays of one static length are modelled')
+            out = []
+            for i in range(len(arrs[0]) if arrs else 0):
+                new = [(gd, _bind(renv, elt, arrs[r][i][1])) for r, (gd, renv) in enumerate(rows)]
+                out.append((z3.BoolVal(True), self.ev(a[5], _bind(env, idx, ('i', z3.BitVecVal(i, 32))),
+                                                      agg if is_scan else new, new if is_scan else scan, live)))
+            if not arrs:
+                self.ev(a[5], _bind(env, idx, ('i', z3.BitVecVal(0, 32))), agg if is_scan else [], [] if is_scan else scan,
+                        False)
+            return ('a', out)
         if k == 'AggFilter':
             is_scan = _bool_lit(a[0])
             rows = scan if is_scan else agg
@@ -377,6 +444,13 @@ def equal(a, b):
         if list(a[1]) != list(b[1]):
             return z3.BoolVal(False)
         return z3.And([z3.BoolVal(True)] + [equal(a[1][k], b[1][k]) for k in a[1]])
+    if a[0] == 'd':
+        # dicts as sets of present (key, value) entries (an entry may be listed more than once)
+        def covered(x, y):
+            return z3.And([z3.BoolVal(True)] + [
+                z3.Implies(g, z3.Or([z3.BoolVal(False)] + [z3.And(g2, equal(k_, k2), equal(v, v2)) for g2, k2, v2 in y[1]]))
+                for g, k_, v in x[1]])
+        return z3.And(covered(a, b), covered(b, a))
     na, ea = compact(a[1])
     nb, eb = compact(b[1])
     cs = [na == nb]
@@ -403,4 +477,7 @@ def concretize(v, model):
         return z3.is_true(model.eval(v[1], model_completion=True))
     if v[0] == 't':
         return {k: concretize(x, model) for k, x in v[1].items()}
+    if v[0] == 'd':
+        return {concretize(k_, model): concretize(x, model) for gd, k_, x in v[1]
+                if z3.is_true(model.eval(gd, model_completion=True))}
     return [concretize(x, model) for gd, x in v[1] if z3.is_true(model.eval(gd, model_completion=True))]
